@@ -1505,10 +1505,10 @@ def run(c):
                         ('matrix-solve', stream_matrix_solve(c, 400 if quick else 10000, matrix)),
                         ('step', stream_step(c, 150 if quick else 4000, solver, matrix, function)),
                         ('constraints', stream_constraints(c, 120 if quick else 3000, solver, matrix, function))])
-        guarded(c, 'linear', e2e_linear, 150 if quick else 6000, matrix)
-        guarded(c, 'nonlinear', e2e_nonlinear, 50 if quick else 2500, solver, matrix, function)
-        guarded(c, 'arnoldi', e2e_arnoldi_reuse, 6 if quick else 200, solver, matrix, function)
+        guarded(c, 'linear', e2e_linear, 150 if quick else 12000, matrix)
+        guarded(c, 'nonlinear', e2e_nonlinear, 50 if quick else 4000, solver, matrix, function)
+        guarded(c, 'arnoldi', e2e_arnoldi_reuse, 6 if quick else 400, solver, matrix, function)
         guarded(c, 'time', e2e_time, 6 if quick else 150, solver, matrix, function)
-        guarded(c, 'project', e2e_project, 18 if quick else 300, matrix)
+        guarded(c, 'project', e2e_project, 18 if quick else 480, matrix)
     for b in broken:
         c.broken_no_input('proof', b, dict(detail=b))
